@@ -371,5 +371,53 @@ class Func:
             del client.get_stream
 
 
+class _NullWriter:
+    """the write half of a data connection nobody listens to"""
+
+    def write(self, b):
+        pass
+
+    async def drain(self):
+        pass
+
+    def close(self):
+        pass
+
+    async def wait_closed(self):
+        pass
+
+    def get_extra_info(self, *a, **k):
+        return None
+
+
+async def client_list_real_stream(F, data, path="", raw_command=None, limit=2**16):
+    """real Client.list over a REAL data stream: the library's own stream class on an asyncio.StreamReader (with its
+    line limit) that delivers `data` and then end of stream - so the library's readline wrapper is in the path"""
+    import aioftp
+
+    client = F.client
+
+    def fake_get_stream(*command_args, conn_type="I", offset=0):
+        async def mk():
+            reader = asyncio.StreamReader(limit=limit)
+            reader.feed_data(data)
+            reader.feed_eof()
+            stream = aioftp.common.ThrottleStreamIO(reader, _NullWriter(), throttles={}, timeout=None)
+
+            async def finish(*a, **k):
+                stream.close()
+
+            stream.finish = finish
+            return stream
+
+        return mk()
+
+    client.get_stream = fake_get_stream
+    try:
+        return await client.list(path, raw_command=raw_command)
+    finally:
+        del client.get_stream
+
+
 def hexb(b):
     return enc_bytes(b)
